@@ -463,9 +463,9 @@ Qed.
 
 Lemma signing_context_ok cfg ctx :
   signing_context cfg = Ok ctx ->
-  ctx = (signer_key cfg, effective_method cfg) /\ mem_str (effective_method cfg) rsa_methods = true.
+  ctx = (signer_key cfg, effective_method cfg) /\ mem_str (effective_method cfg) (allowed_methods cfg) = true.
 Proof.
-  unfold signing_context. destruct (mem_str (effective_method cfg) rsa_methods) eqn:E; [|discriminate].
+  unfold signing_context. destruct (mem_str (effective_method cfg) (allowed_methods cfg)) eqn:E; [|discriminate].
   intro H. injection H as <-. auto.
 Qed.
 
@@ -507,7 +507,7 @@ Lemma respond_inv cfg cp rt rq s now tnow addr relay rnd action resp rl :
   let rand' := snd (make_assertion cfg rt rq s now tnow addr (rnd_saml rnd)) in
   let ctx := (signer_key cfg, effective_method cfg) in
   exists ael,
-    mem_str (effective_method cfg) rsa_methods = true /\
+    mem_str (effective_method cfg) (allowed_methods cfg) = true /\
     make_assertion_el cfg cp rt a rnd = Ok ael /\
     resp = response_of cfg rt rq now ael rand' ctx /\
     inner_assertion resp = (a, sign ctx (a_id a) a) /\
@@ -682,7 +682,7 @@ Theorem respond_both_signed cfg cp rt rq s now tnow addr relay rnd action resp r
   sg_ref sr = "#" +++ rs_id (rs_body resp) /\ sg_over sr = rs_body resp /\
   sg_signer sa = signer_key cfg /\ sg_method sa = effective_method cfg /\
   sg_ref sa = "#" +++ a_id a /\ sg_over sa = a /\
-  In (effective_method cfg) rsa_methods /\
+  In (effective_method cfg) (allowed_methods cfg) /\
   (forall k, idp_signer cfg = Some k -> signer_key cfg = k) /\
   (idp_signer cfg = None -> signer_key cfg = idp_key cfg) /\
   (sig_method cfg = "" -> effective_method cfg = rsa_sha1).
@@ -795,7 +795,7 @@ Qed.
 Definition ex_cfg : idpcfg :=
   {| sso_url := "https://idp.example.com/sso"; idp_entity := "https://idp.example.com/metadata";
      max_issue_delay := 90000000000; max_clock_skew := 180000000000; sig_method := ""; idp_key := 1;
-     idp_signer := Some 2 |}.
+     idp_signer := Some 2; idp_signer_ecdsa := false |}.
 Definition ex_md (kd : list keydesc) : spmeta :=
   {| md_entity := "https://sp.example.com/metadata";
      descriptors := [ {| acs := [ {| ep_binding := redirect_binding; ep_location := "https://sp.example.com/r"; ep_index := 0; ep_default := None |};
@@ -1034,6 +1034,12 @@ Proof.
     unfold enc_decision_decl, first_enc. cbn. apply nonempty_true_iff in Hc. rewrite Hc. rewrite Hcp. reflexivity.
 Qed.
 
+Lemma allowed_in_all cfg m : mem_str m (allowed_methods cfg) = true -> mem_str m all_methods = true.
+Proof.
+  intro H. apply mem_str_In in H. apply mem_str_In. unfold all_methods. apply in_or_app.
+  unfold allowed_methods in H. destruct (idp_signer cfg); [destruct (idp_signer_ecdsa cfg)|]; auto.
+Qed.
+
 (* the SP accepts what the IdP emits, and returns the assertion the IdP made *)
 Theorem roundtrip_abstract cfg cp sp rt rq s now addr relay rnd ids action resp rl :
   0 <= max_issue_delay cfg -> 0 <= max_clock_skew cfg ->
@@ -1060,7 +1066,7 @@ Proof.
   replace (now + max_issue_delay cfg <? now) with false by lia.
   rewrite He, seqb_refl. cbn [negb]. rewrite seqb_refl. cbn [negb].
   unfold sig_valid, sign. cbn [sg_signer sg_ref sg_over sg_method fst snd].
-  rewrite Hk, Z.eqb_refl, seqb_refl, respbody_eqb_refl, Hm. cbn [andb negb].
+  rewrite Hk, Z.eqb_refl, seqb_refl, respbody_eqb_refl, (allowed_in_all _ _ Hm). cbn [andb negb].
   assert (Ha : match ael with
                | APlain a0 _ => Ok a0
                | AEnc e => match sp_key sp with
@@ -1330,3 +1336,66 @@ Example ex_blank_location_not_matched :
   (match get_acs_endpoint md (rq "") with Some (_, ei, _, _) => ei | None => -1 end,
    match get_acs_endpoint md (rq "7") with Some (_, ei, _, _) => ei | None => -1 end) = (1, -1).
 Proof. reflexivity. Qed.
+
+(* ---------- C06 on the step API ---------- *)
+Lemma do_post_binding_ok x st st' :
+  do_post_binding x st = (st', Ok tt) -> ep_binding (rt_ep (sx_rt x)) = post_binding.
+Proof.
+  unfold do_post_binding.
+  destruct (match st_resp st with None => do_make_response x st | Some _ => (st, Ok tt) end) as [st1 r1].
+  destruct r1 as [u| |]; try (intro H; discriminate).
+  destruct (seqb (ep_binding (rt_ep (sx_rt x))) post_binding) eqn:E; cbn [negb]; intro H; [|discriminate].
+  apply seqb_iff. exact E.
+Qed.
+
+(* PostBinding / WriteResponse succeeds only for an HTTP-POST endpoint, in every state
+   of the request object — also when MakeResponse was called first *)
+Theorem steps_post_only_to_post x : forall l st,
+  posts_only_to_post (ep_binding (rt_ep (sx_rt x)))
+                     (map (fun s => match s with SMakeAssertionEl => 0 | SMakeResponse => 1 | SPostBinding => 2 end) l)
+                     (snd (run_steps x l st)) = true.
+Proof.
+  induction l as [|s r IH]; intro st; [reflexivity|].
+  cbn [run_steps map]. destruct (do_step x s st) as [st1 o] eqn:E.
+  specialize (IH st1). destruct (run_steps x r st1) as [st2 os]. cbn [snd] in *. cbn [posts_only_to_post].
+  rewrite IH, andb_true_r.
+  destruct s; cbn [Z.eqb andb negb orb]; try reflexivity.
+  destruct o as [u| |]; cbn [ocls Z.eqb Pos.eqb andb negb orb]; try reflexivity.
+  destruct u. cbn [do_step] in E. rewrite (do_post_binding_ok _ _ _ E). apply seqb_refl.
+Qed.
+
+Lemma step_of_code l : map (fun s => match s with SMakeAssertionEl => 0 | SMakeResponse => 1 | SPostBinding => 2 end) (map step_of l)
+                       = map (fun z => if z =? 0 then 0 else if z =? 1 then 1 else 2) l.
+Proof. induction l as [|z r IH]; [reflexivity|]. cbn [map]. rewrite IH. unfold step_of. destruct (z =? 0); [reflexivity|]. destruct (z =? 1); reflexivity. Qed.
+
+Lemma posts_only_raw b : forall l os,
+  posts_only_to_post b (map (fun z => if z =? 0 then 0 else if z =? 1 then 1 else 2) l) os = true ->
+  posts_only_to_post b l os = true.
+Proof.
+  induction l as [|z r IH]; intros os H; [reflexivity|]. destruct os as [|o os']; [reflexivity|].
+  cbn [map posts_only_to_post] in *. apply andb_true_iff in H. destruct H as [H1 H2].
+  rewrite (IH _ H2), andb_true_r.
+  destruct (z =? 2) eqn:E2; [|reflexivity].
+  apply Z.eqb_eq in E2. subst z. exact H1.
+Qed.
+
+Theorem c06s_spec_of_model base steps :
+  match c06_route base with
+  | None => True
+  | Some r =>
+      let '(st, os) := run_steps (c08s_ctx base r) (map step_of steps) st_empty in
+      c06s_spec {| s8_base := base; s8_steps := steps; s8_results := os;
+                   s8_ael_set := is_some (st_ael st); s8_resp_set := is_some (st_resp st) |} = true
+  end.
+Proof.
+  destruct (c06_route base) as [r|] eqn:Er; [|exact I].
+  destruct (run_steps (c08s_ctx base r) (map step_of steps) st_empty) as [st os] eqn:E.
+  unfold c06s_spec. cbn [s8_base s8_results s8_steps]. rewrite Er.
+  pose proof (run_steps_no_panic (c08s_ctx base r) (map step_of steps) st_empty) as NP. rewrite E in NP. cbn in NP.
+  rewrite NP. cbn [andb]. destruct r as [[[di ei] d] e].
+  pose proof (steps_post_only_to_post (c08s_ctx base (di, ei, d, e)) (map step_of steps) st_empty) as P.
+  rewrite E in P. cbn [snd] in P. rewrite step_of_code in P.
+  assert (Hb : ep_binding (rt_ep (sx_rt (c08s_ctx base (di, ei, d, e)))) = ep_binding e).
+  { unfold c08s_ctx. destruct (make_assertion _ _ _ _ _ _ _ _) as [a rand']. reflexivity. }
+  rewrite Hb in P. apply posts_only_raw. exact P.
+Qed.
